@@ -16,7 +16,8 @@ THEOREMS = ['base36_total', 'base36_non_digit_is_error', 'parse_step_safe', 'tok
             'tokenizer_vec_range', 'kernel2_safe', 'kernel2_seq_safe', 'kernel2_modelled', 'rip_stream_safe2',
             # extension 2 / 3: IGS tokenizer, IGS pixel kernel
             'igs_tokenizer_safe', 'igs_next_action_safe', 'igs_stream_safe', 'igs_loop_step_safe', 'igs_loop_progress', 'igs_loop_step0_stuck', 'igs_executor_invariant',
-            'igs_set_pixel_safe', 'igs_get_pixel_safe', 'igs_fill_rect_safe', 'igs_fill_rect_cost', 'igs_picture_safe', 'igs_kernel_safe', 'igs_stream_kernel_safe']
+            'igs_set_pixel_safe', 'igs_get_pixel_safe', 'igs_fill_rect_safe', 'igs_fill_rect_cost', 'igs_picture_safe', 'igs_kernel_safe', 'igs_stream_kernel_safe',
+            'igs_draw_line_total', 'igs_draw_line_stall_witness', 'igs_kernel2_safe', 'igs_stream_kernel2_safe']
 SWEEP_LEMMAS = ['RipTokProofs.tables_ok (all 52 generated parse tables: every field index inside the struct, `_` arm is text or error, a continuing arm of a fixed-arity table has a successor, no empty fixed-arity table)',
                 'RipStreamProofs.kernel_weights_ok (no field of a kernel command is fed more than two base-36 digits)',
                 'RipTokProofs.lf_not_command (line feed is not a command letter in the three generated dispatch tables)',
@@ -30,8 +31,8 @@ TRUSTED = ['Coq 8.16.1 kernel + vm_compute (table sweeps, model evaluation); no 
 UNMODELLED = ['RIP primitives beyond put_pixel / get_pixel / bar / bar_rect / fill_x / fill_y / line / rectangle / draw_poly / draw_poly_line: circle, ellipse, arcs, pie slices, bezier, filled polygons, flood fill, fonts and text output, buttons, mouse fields, icons, get/put image (search stage only)',
               'Command::run of FontStyle, Mouse, Button, ButtonStyle, LoadIcon, FileQuery, GetImage, PutImage, CopyRegion, Circle, Oval*, Arc*, PieSlice*, Bezier, FilledPolygon, Fill, Text, TextXY: reaching one is the explicit outcome OUnmodelled2',
               'the wrapped ansi::Parser of both parsers (a parameter of the stream theorems: any behaviour), TerminalState::set_text_window (terminal margins), Buffer::clear_screen',
-              'IGS: every DrawExecutor command except ColorSet, FilledRectangle, AttributeForFills, ScreenClear, SetResolution, HollowSet, DrawingMode, SetPenColor (with the right parameter count they are the explicit outcome XUnmodelled; the tokenizer theorems hold for EVERY executor); the unchecked `x += p.len() as i32` of the loop parameter count (needs 2^31 parameters)',
-              'running time: cost theorems only for Bgi::line (put_pixel calls), IGS fill_rect (fill_pixel calls <= width x height) and IGS loops (steps <= |to - from| when step >= 1); otherwise the search stage enforces 5 s of CPU per command under the worker']
+              'IGS: every DrawExecutor command except ColorSet, FilledRectangle, AttributeForFills, ScreenClear, SetResolution, HollowSet, DrawingMode, SetPenColor, DrawLine, LineDrawTo, LineMarkerTypes (with the right parameter count they are the explicit outcome XUnmodelled; the tokenizer theorems hold for EVERY executor); the unchecked `x += p.len() as i32` of the loop parameter count (needs 2^31 parameters)',
+              'running time: cost theorems only for Bgi::line (put_pixel calls), IGS fill_rect (fill_pixel calls <= width x height), IGS draw_line (iterations between max(dx,dy)+1 and dx+dy+1: NOT bounded by the canvas) and IGS loops (steps <= |to - from| when step >= 1); otherwise the search stage enforces 5 s of CPU per command under the worker']
 ASSUMPTIONS = ['streams shorter than 2^31 characters: parameter_state (i32) overflows in the dev profile after 2^31-1 parameter characters of a single command (theorem pstate_overflow_witness); not reproducible under the 1 GiB worker limit',
                'buf.terminal_state.cleared_screen is never set by the engine (the only assignment in the crate is the reset inside rip print_char), so the graph_defaults prologue of print_char is not modelled',
                'Rust i32 arithmetic panics on overflow (dev profile); `as u8` / `as usize` / `as u32` truncate or reinterpret as written in the model',
@@ -314,7 +315,7 @@ def igs_special(table):
          'G#X 0,1,2,3:', 'G#X 99999:', 'G#X 7,0,1,2,3,4,5,6,7,8,9,10,11,12,13,14,15,16:', 'G#c 0,1:c 1,15:c 1,16:c 99999,99999:', 'G#d 1:d 99999:', 'G#i 0,1:i 1,99999:', 'G#l 0:l 1:l 2:l 3:l 4:l 99999:',
          'G#m 0,0:m 1,99999:m 2,5:m 3,5:m 4,5:', 'G#p 0,0:p 79,24:p 99999,99999:', 'G#r 0:r 1:r 2:', 'G#v 0:v 1:v 2:', 'G#w 0:w 1:w 2:', 'G#L 0,0,10,10:L_\n 10,10,20,\n20:', 'G#L 0,0,\n10,10:',
          'G#L 0 , 0 , 10 , 10 :', 'G#L>0,0,10,10:', 'G#L 0,0,10,10', 'G#L -1,-1,10,10:', 'G#L 0,,10:', 'G#L ,:', 'G#L:', 'G#:', 'G#L 2147483647,2147483648,99999999999,1:', 'G#W 2147483648,1,x@',
-         'G#&100,200,2147483647,0,L,4,0,0,1,1:', 'G#&1,3,1,0,L,4,+2147483647,0,0,0:', 'G#&1,3,1,0,L,4,--2147483648,0,0,0:', 'G#&1,3,1,0,L,4,!-2147483648,0,0,0:',
+         'G#L 0,0,1000000000,0:', 'G#&100,200,2147483647,0,L,4,0,0,1,1:', 'G#&1,3,1,0,L,4,+2147483647,0,0,0:', 'G#&1,3,1,0,L,4,--2147483648,0,0,0:', 'G#&1,3,1,0,L,4,!-2147483648,0,0,0:',
          'G#&200,100,2147483647,0,L,4,0,0,1,1:', 'G#&0,2147483647,1,0,P,2,x,y:', 'G#&1,3,1,0,L,4,+2147483646,0,0,0:', 'G#&0,3,1,0,L,4,-2147483647,0,0,0:', 'G#&0,3,1,0,L,4,!2147483647,0,0,0:',
          'G#L 0,0,5,5:\nG#L 5,5,9,9:\n', 'G#L 0,0,5,5:L 5,5,9,9:', 'G#L 0,0,5,5:x', 'text G#L 0,0,5,5:text G', 'G#I 0:\rG#s 0:', 'GG#s 0:', 'G#G#s 0:']
     # a command or loop abandoned at every possible point, then (in the SAME stream, on the parser state the abandoned
@@ -678,8 +679,11 @@ def gen_igs_model_cmd(rng):
         elif rng.random() < 0.04:      # a tall rectangle two pixels wide
             x0 = rng.choice([0, 318]); v = [str(x0), rng.choice(['0', '190']), str(x0 + 1), rng.choice(['199', '200', '99999'])]
         c = 'Z' + rng.choice(['', ' ']) + ','.join(v)
-    elif r < 0.36: c = 'C' + rng.choice(['', ' ']) + rng.choice(['0', '1', '2', '2', '2', '3', '4', '99']) + ',' + rng.choice(['0', '1', '2', '3', '7', '15', '16', '255'])
+    elif r < 0.34: c = 'C' + rng.choice(['', ' ']) + rng.choice(['0', '1', '1', '2', '2', '2', '3', '4', '99']) + ',' + rng.choice(['0', '1', '2', '3', '7', '15', '16', '255'])
     elif r < 0.48: c = 'A ' + rng.choice(['0', '1', '2', '2', '3', '3', '4', '5']) + ',' + rng.choice(['0', '1', '5', '6', '7', '12', '13', '24', '25', '99']) + ',' + rng.choice(['0', '1', '1', '2'])
+    elif r < 0.44: c = rng.choice(['L ' + ','.join([sx(), sy(), sx(), sy()]), 'L ' + ','.join([sx(), sy(), sx(), sy()]), 'D ' + sx() + ',' + sy(), 'D ' + sx() + ',' + sy(),
+                                   'T 2,' + rng.choice(['1', '2', '3', '4', '5', '6', '6', '0', '8']) + ',' + rng.choice(['1', '3']), 'T 1,' + rng.choice(['1', '6', '7', '0']) + ',1', 'T 3,1,1',
+                                   'L ' + sx() + ',' + sy() + ',' + rng.choice(['400', '1000', '99999']) + ',' + sy(), 'L 0,' + sy() + ',0,' + rng.choice(['250', '1000'])])
     elif r < 0.50: c = 's' + rng.choice(['', ' 0', ' 5', ' 1,2'])
     elif r < 0.52: c = rng.choice(['H ' + rng.choice(['0', '1', '2']), 'M ' + rng.choice(['0', '1', '3', '4', '5']),
                                    'S ' + rng.choice(['0', '1', '2', '15', '16']) + ',' + ','.join(rng.choice(['0', '3', '7', '8', '255', '256']) for _ in range(3))])
@@ -719,7 +723,9 @@ def gen_igs_model_stream(rng):
     if rng.random() < 0.1: s += rng.choice(['G', 'G#', 'text', 'G#Z 1,2'])
     return s
 
-DIRECTED_I = ['G#S 2,7,0,3:C 2,2:Z 0,0,10,5:', 'G#S 1,7,7,7:', 'G#S 16,1,1,1:', 'G#S 0,255,256,8:Z 0,0,3,3:', 'G#H 1:H 2:M 3:M 0:M 5:', 'G#C 2,3:Z 0,0,10,5:', 'G#&0,3,1,0,Z,4,x,0,x,5:', 'G#R 1,2:A 2,5,1:Z 3,3,40,9:', 'G#Z 0,0,99999,3:', 'G#Z 99999,99999,318,198:', 'G#Z 4000000000,0,5,5:', 'G#A 3,9,1:C 2,5:Z 1,1,33,9:',
+DIRECTED_I = ['G#C 1,3:L 0,0,4,2:', 'G#C 1,2:L 5,5,40,9:D 3,12:D 60,0:', 'G#T 2,3,1:C 1,5:L 0,0,60,12:', 'G#T 2,6,1:C 1,5:L 0,12,60,0:D 0,0:', 'G#T 2,7,1:L 0,0,5,5:', 'G#T 2,8,1:T 1,7,1:T 3,1,1:T 1,2,5:L 1,1,9,9:',
+              'G#L 0,0,99999,5:', 'G#L 99999,99999,0,0:', 'G#L 0,0,0,0:', 'G#D 5,5:D 5,5:', 'G#L 1,2,3:', 'G#&0,4,1,0,L,4,0,x,20,y:', 'G#C 1,4:&0,5,1,0,D,2,+3,x:', 'G#L 2147483647,0,0,0:', 'G#L 0,0,200000,1:T 2,2,1:',
+              'G#S 2,7,0,3:C 2,2:Z 0,0,10,5:', 'G#S 1,7,7,7:', 'G#S 16,1,1,1:', 'G#S 0,255,256,8:Z 0,0,3,3:', 'G#H 1:H 2:M 3:M 0:M 5:', 'G#C 2,3:Z 0,0,10,5:', 'G#&0,3,1,0,Z,4,x,0,x,5:', 'G#R 1,2:A 2,5,1:Z 3,3,40,9:', 'G#Z 0,0,99999,3:', 'G#Z 99999,99999,318,198:', 'G#Z 4000000000,0,5,5:', 'G#A 3,9,1:C 2,5:Z 1,1,33,9:',
               'G#A 2,0,0:C 2,15:Z 0,0,47,12:', 'G#A 2,25,1:Z 0,0,5,5:', 'G#A 3,13,2:Z 0,0,5,5:', 'G#A 5,1,1:', 'G#C 2,16:Z 0,0,5,5:', 'G#C 4,1:', 'G#C 2:', 'G#s:Z 0,0,3,3:', 'G#R 1,0:Z 600,0,700,3:', 'G#R 0,3:', 'G#R 2,0:',
               'G#R 1,1:R 0,0:Z 0,0,5,5:', 'G#W 1,2,abc\nG#C 2,3:Z 0,0,5,5:', 'G#&0,3,1,0,C,2,2,x:Z 0,0,9,2:', 'G#&5,0,2,0,Z,4,x,0,x,y:', 'G#&0,0,1,0,Z,4,0,0,1,1:', 'G#&0,3,1,0,~,4,0,0,1,1:', 'G#&0,3,1,0,Z,0,:',
               'G#&0,6,1,0,Z,8,0,0,x,1:0,3,x,4:', 'G#&0,3,1,0,Z,4,q,0,1,1:', 'G#&0,3,1,0,Z,4,+x,-y,!2,y:', 'G#&0,3,1,5,Z,4,0,0,1,1:', 'G#&0,3,1,0,Z|4,0,0,1,1:', 'G#&0,3,1,0,Z,4,0,0,\n1,1:', 'G#&0,3,1,0,Z,x',
@@ -730,7 +736,7 @@ def correspondence_igs(ctx, rng):
     streams = [d.encode().decode('unicode_escape') for d in DIRECTED_I] + [gen_igs_model_stream(rng).encode().decode('unicode_escape') for _ in range(ctx.n(160, 1200))]
     cases = ['igsobs ' + hx(s) for s in streams]
     impl = ctx.impl(cases, per_case_timeout=10)
-    model = model_parallel(ctx, 'From IE Require Import Run.RunC20.\nLocal Open Scope Z_scope.', ['run_igs %s' % to_codes(s) for s in streams])
+    model = model_parallel(ctx, 'From IE Require Import Run.RunC20.\nLocal Open Scope Z_scope.', ['run_igs2 %s' % to_codes(s) for s in streams])
     dis = []; nontriv = set(); cnt = {'igs_streams': len(streams), 'igs_unmodelled': 0, 'igs_with_loop_steps': 0, 'igs_with_errors': 0, 'igs_panic_both': 0}
     for st, c, r, m in zip(streams, cases, impl, model):
         a = r[1] if (r is not None and r[0] == 'ok') else ([-1] if (r is not None and r[0] == 'panic') else None)
@@ -819,9 +825,9 @@ def replay(ctx, body):
         print('model (run_rip; [-2] = reaches a command outside the modelled kernel, [-1; site] = model panic):', m)
     if lang == 'igs':
         o = ctx.impl(['igsobs ' + hx(stream)], per_case_timeout=10)[0]
-        m = ctx.model('From IE Require Import Run.RunC20.\nLocal Open Scope Z_scope.', ['run_igs %s' % to_codes(stream)], timeout=300)[0]
+        m = ctx.model('From IE Require Import Run.RunC20.\nLocal Open Scope Z_scope.', ['run_igs2 %s' % to_codes(stream)], timeout=300)[0]
         print('implementation (igsobs):', o)
-        print('model (run_igs; [-2] = a command outside the modelled executor ran, [-1; site] = model panic, site 32 = Loop::next_step arithmetic):', m)
+        print('model (run_igs2; [-2] = a command outside the modelled executor ran, [-1; site] = model panic, site 32 = Loop::next_step arithmetic):', m)
         bounds = dict(LOOP_BOUNDS)
         if stream in bounds:
             d = ctx.impl(['igsdrain %s %d' % (hx(stream), bounds[stream] + 200)], per_case_timeout=20)[0]
@@ -849,9 +855,9 @@ LEVEL_TEXT = ('PARTIAL by design. Machine-checked proof (Coq, closed under the g
               'and the fallback parser as parameters; theorem igs_tokenizer_safe / igs_stream_safe: for every executor, every interleaving of characters and get_next_action calls, parsed_numbers[0..=4], the loop_parameters unwraps, '
               '`% len`, the parameter index never fail and the loop delay sleep never sleeps; the ONLY panic class is the i32 arithmetic of Loop::next_step (known finding, witness theorems; proved absent for headers / values up to 10^9); '
               'loops with step >= 1 end after at most |to-from| steps, step 0 never ends (known finding); (d) IGS set_pixel / get_pixel / fill_pixel / fill_rect and the executor arms ColorSet, FilledRectangle, AttributeForFills, '
-              'ScreenClear, SetResolution, HollowSet, DrawingMode, SetPenColor are safe for ALL parameter values, fill_rect does at most width x height pixel calls, get_picture_data indexes the pen table in range; igs_stream_kernel_safe joins (c) and (d). '
+              'ScreenClear, SetResolution, HollowSet, DrawingMode, SetPenColor are safe for ALL parameter values, fill_rect does at most width x height pixel calls, get_picture_data indexes the pen table in range; igs_stream_kernel_safe joins (c) and (d); (e) IGS draw_line (DrawLine, LineDrawTo, LineMarkerTypes) is an unclipped Bresenham: for ALL arguments it ends at the end point after at least max(|dx|,|dy|)+1 iterations — work proportional to the coordinates, the known stall igs-timeout:L — and panics only in the two known ways (LINE_STYLE[6], i32 overflow beyond +-2^27). '
               'NOT proved: ovals, arcs, bezier, filled polygons, flood fill, fonts, buttons, icons, images and the other IGS drawing commands — covered only by the search stage, which runs the complete RIP and IGS command tables '
-              '(every letter x parameter lengths 0..=24 over {0,1,Z}; 0..=12 IGS values) and random sequences against the real code under 5 s / 1 GiB limits; 17 defects found this way are fixed by fix: commits, 9 failure classes remain as known findings.')
+              '(every letter x parameter lengths 0..=24 over {0,1,Z}; 0..=12 IGS values) and random sequences against the real code under 5 s / 1 GiB limits; 17 defects found this way are fixed by fix: commits, 10 failure classes remain as known findings.')
 LEVEL_NOTE = ('Trusted: Coq kernel + vm_compute; the python translator (tables, constants, token pins); hand-written tokenizer / kernel models tied by differential runs (state and canvas hashes); '
               'the harness and worker limits. Assumes streams shorter than 2^31 characters (parameter_state overflow witness is a theorem) and fewer than 2^31 IGS loop parameters. No axioms.')
 TECHNIQUE = 'Coq proof: invariants by induction over character streams, event sequences and command sequences, an abstract-canvas (parametric) proof of the run-slice line with a cost measure, complete vm_compute sweeps of the regenerated command tables; exhaustive + random search of the full command tables in sandboxed workers'
